@@ -6,7 +6,7 @@ import PebblesVerif.Model.TypeURLMap
 `c03.merge` — `{"inputs":[{"schema":<wire schema>,"url":"…"}…], "mode":"extend"|"sanitize",
 "facts":"gen"|"original"|"expected", "geturl":[[type,field,fallback]…]}` ↦
 `{"outcome":"ok"|"error"|"panic", "kind":…, "kinds":[every kind some map order could report],
-"schema":<wire schema, reloadView>, "tum":[{"type","node","fields":[[f,u]…]}…], "urls":[…],
+"items":[canonical items of reloadView], "tumItems":[…], "urls":[…], (with "full":true also "schema", "tum")
 "forType":[{"type","urls"}…], "geturl":[{"ok":url}|{"err":msg}…]}`. -/
 namespace PebblesVerif.Driver.DMerge
 open Lean PebblesVerif PebblesVerif.Driver PebblesVerif.Merge
@@ -55,6 +55,37 @@ def tumJ (t : TUM.Table) : Json :=
   jarr (t.map (fun (T, p) => obj [("type", T), ("node", p.implementsNode),
     ("fields", jarr (p.fields.map (fun (f, u) => strArr [f, u])))]))
 
+def dflt : Option String → String
+  | some s => s
+  | none => "-"
+
+def dirUseS (d : DirUse) : String :=
+  d.name ++ "(" ++ ",".intercalate (d.args.map (fun (n, v) => n ++ ":" ++ v)) ++ ")"
+
+/-- the canonical item view (harness: `schemaItems`), unsorted -/
+def itemsOf (s : Schema) : List String :=
+  s.types.flatMap (fun d =>
+    if d.builtIn then [] else
+    ["T|" ++ d.name ++ "|" ++ d.kind.toString] ++
+    (if d.desc == "" then [] else ["TD|" ++ d.name ++ "|" ++ d.desc]) ++
+    d.directives.map (fun u => "TU|" ++ d.name ++ "|" ++ dirUseS u) ++
+    d.interfaces.map (fun i => "I|" ++ d.name ++ "|" ++ i) ++
+    d.members.map (fun m => "M|" ++ d.name ++ "|" ++ m) ++
+    d.enumValues.map (fun e => "E|" ++ d.name ++ "|" ++ e.name) ++
+    d.fields.flatMap (fun f =>
+      if isBuiltinName f.name then [] else
+      ["F|" ++ d.name ++ "|" ++ f.name ++ "|" ++ f.type.toString ++ "|" ++ dflt f.default] ++
+      (if f.desc == "" then [] else ["FD|" ++ d.name ++ "|" ++ f.name ++ "|" ++ f.desc]) ++
+      f.directives.map (fun u => "FU|" ++ d.name ++ "|" ++ f.name ++ "|" ++ dirUseS u) ++
+      f.args.map (fun a => "A|" ++ d.name ++ "|" ++ f.name ++ "|" ++ a.name ++ "|" ++ a.type.toString ++ "|" ++ dflt a.default))) ++
+  s.directives.map (fun d =>
+    "D|" ++ d.name ++ "|" ++ ",".intercalate (TUM.sortStrings (d.args.map (fun a => a.name ++ ":" ++ a.type.toString ++ "=" ++ dflt a.default)))
+      ++ "|" ++ ",".intercalate (TUM.sortStrings d.locations) ++ "|" ++ (if d.repeatable then "true" else "false"))
+
+def tumItemsOf (t : TUM.Table) : List String :=
+  t.flatMap (fun (T, p) => ("N|" ++ T ++ "|" ++ (if p.implementsNode then "true" else "false")) ::
+    p.fields.map (fun (f, u) => "R|" ++ T ++ "|" ++ f ++ "|" ++ u))
+
 def pickFacts (s : String) : Gen.Merge.Facts :=
   match s with
   | "original" => Gen.Merge.original
@@ -83,13 +114,14 @@ def handle : Handler
           | .error m => obj [("err", m)])
         | _ => obj [("err", "bad query")])
       let common : List (String × Json) :=
-        [("tum", tumJ tum), ("urls", strArr (TUM.getURLs tum)),
+        [("tumItems", strArr (tumItemsOf tum)), ("urls", strArr (TUM.getURLs tum)),
          ("forType", jarr (tum.map (fun (T, _) => obj [("type", T), ("urls", strArr ((TUM.getForType tum T).getD []))]))),
          ("geturl", jarr answers)]
       match final with
       | .error (.panic w) => some (obj ([("outcome", Json.str "panic"), ("what", Json.str w)] ++ common))
       | .error (.err e) => some (obj [("outcome", "error"), ("kind", e.kind), ("kinds", strArr [e.kind])])
-      | .ok r => some (obj ([("outcome", Json.str "ok"), ("schema", schemaJ r)] ++ common))
+      | .ok r => some (obj ([("outcome", Json.str "ok"), ("items", strArr (itemsOf r))] ++
+        (if getBool j "full" then [("schema", schemaJ r), ("tum", tumJ tum)] else []) ++ common))
   | "c03.facts", _ =>
     let F := Gen.Merge.facts
     some (obj [("recognised", F.recognised), ("expected", decide (F = Gen.Merge.expected)),
